@@ -26,6 +26,7 @@ def main():
     props = None
     repo = "/repo"
     base = "seeded"
+    target_only = False
     ids = []
     i = 0
     while i < len(args):
@@ -37,6 +38,8 @@ def main():
             repo = args[i + 1]; i += 1
         elif args[i] == "--props":
             props = args[i + 1].split(","); i += 1
+        elif args[i] == "--target-only":
+            target_only = True
         else:
             ids.append(args[i])
         i += 1
@@ -48,7 +51,7 @@ def main():
         d = os.path.join(V, base, sid)
         meta = json.load(open(d + "/meta.json"))
         target = meta.get("target_property")
-        todo = props or meta.get("checks") or companions(target)
+        todo = props or ([target] if target_only and base == "seeded" else None) or meta.get("checks") or companions(target)
         if subprocess.run(["git", "-C", repo, "diff", "--quiet"]).returncode != 0:
             print(repo + " is dirty; abort"); sys.exit(2)
         if subprocess.run(["git", "-C", repo, "apply", d + "/patch.diff"]).returncode != 0:
